@@ -356,6 +356,73 @@ func execDpCompile(op string) string {
 	}
 }
 
+// execDpPlain: the LEGITIMATE use of a custom descriptor.proto — the resolver supplies the text of
+// the real file (as source, so it counts as an override) and it imports nothing. k leaf files
+// without imports (each depends on descriptor.proto only implicitly) and a `top` file importing all
+// of them are compiled; the call must succeed at every parallelism, request order and schedule
+// (C05: the outcome does not depend on them). `reps` calls; the first that does not return ok is
+// the answer.
+func execDpPlain(op string) string {
+	w := strings.Fields(op)
+	par, k, reps := 1, 3, 1
+	var req []string
+	for _, kv := range w[1:] {
+		key, v, _ := strings.Cut(kv, "=")
+		switch key {
+		case "par":
+			par, _ = strconv.Atoi(v)
+		case "k":
+			k, _ = strconv.Atoi(v)
+		case "reps":
+			reps, _ = strconv.Atoi(v)
+		case "req":
+			for _, r := range strings.Split(v, ",") {
+				req = append(req, r+".proto")
+			}
+		default:
+			return "bad-op"
+		}
+	}
+	if len(req) == 0 || k < 1 || k > 26 || reps < 1 {
+		return "bad-op"
+	}
+	dp, err := os.ReadFile(execRepoFile("wellknownimports/google/protobuf/descriptor.proto"))
+	if err != nil {
+		return "bad-op descriptor.proto not found: " + err.Error()
+	}
+	srcs := map[string]string{"google/protobuf/descriptor.proto": string(dp)}
+	var top strings.Builder
+	top.WriteString("syntax = \"proto3\";\n")
+	for i := 0; i < k; i++ {
+		n := fmt.Sprintf("leaf%d", i)
+		srcs[n+".proto"] = fmt.Sprintf("syntax = \"proto3\";\nmessage L%d { int32 f = 1 [deprecated = true]; }\n", i)
+		fmt.Fprintf(&top, "import \"%s.proto\";\n", n)
+	}
+	top.WriteString("message Top {\n")
+	for i := 0; i < k; i++ {
+		fmt.Fprintf(&top, "  L%d l%d = %d;\n", i, i, i+1)
+	}
+	top.WriteString("}\n")
+	srcs["top.proto"] = top.String()
+	for i := 0; i < reps; i++ {
+		comp := protocompile.Compiler{
+			Resolver:       &protocompile.SourceResolver{Accessor: protocompile.SourceAccessorFromMap(srcs)},
+			MaxParallelism: par,
+		}
+		ctx, cancel := context.WithTimeout(context.Background(), 5*time.Second)
+		_, err = comp.Compile(ctx, req...)
+		cancel()
+		switch {
+		case err == nil:
+		case errors.Is(err, context.DeadlineExceeded):
+			return fmt.Sprintf("hang rep=%d", i)
+		default:
+			return fmt.Sprintf("err rep=%d %s", i, Canon(err.Error()))
+		}
+	}
+	return "ok"
+}
+
 // execRepoFile locates a file of the repository under test (the harness module replaces the
 // protocompile module by a directory).
 func execRepoFile(rel string) string {
@@ -369,6 +436,9 @@ func execRepoFile(rel string) string {
 func (execEngine) Exec(op string) string {
 	if strings.HasPrefix(op, "dpcompile") {
 		return execDpCompile(op)
+	}
+	if strings.HasPrefix(op, "dpplain") {
+		return execDpPlain(op)
 	}
 	c, ok := parseExecCase(op)
 	if !ok {
@@ -669,6 +739,17 @@ func (execEngine) Gen(r *Rand, tier string) [][]string {
 	add("dpcompile par=2 req=x")
 	add("dpcompile par=4 req=dp,x")
 	add("dpcompile par=1 req=dp,x")
+	// (1h) a custom descriptor.proto that imports nothing: must compile at every parallelism,
+	// request order and schedule
+	dpreps := 6
+	if tier == "thorough" {
+		dpreps = 60
+	}
+	for _, par := range []int{1, 2, 4, 8} {
+		for _, rq := range []string{"leaf0", "top", "top,leaf2", "leaf2,top", "leaf0,leaf1,leaf2", "leaf0,leaf1,leaf2,leaf3,leaf4,leaf5,leaf6,leaf7"} {
+			add(fmt.Sprintf("dpplain par=%d k=8 reps=%d req=%s", par, dpreps, rq))
+		}
+	}
 	// (1d) one dependency supplied as a pre-built descriptor and imported by k files at once: the
 	// import of that file into the shared symbol table must succeed at every parallelism (C05/C16)
 	sreps := 1
